@@ -12,6 +12,7 @@ import (
 	"time"
 
 	wrapping "github.com/hashicorp/go-kms-wrapping/v2"
+	"github.com/hashicorp/go-kms-wrapping/v2/extras/multi"
 	"github.com/hashicorp/nodeenrollment"
 	"github.com/hashicorp/nodeenrollment/registration"
 	nodetls "github.com/hashicorp/nodeenrollment/tls"
@@ -98,6 +99,21 @@ func enroll(t vkit.TB, c config, state, params *structpb.Struct, subst string) b
 		reqOpts = append(reqOpts, nodeenrollment.WithActivationToken(token))
 		handleOpts = append(handleOpts, nodeenrollment.WithActivationToken(token))
 		req = a.Request(reqOpts...)
+	case "wrapper/server-pool-node-uses-older-key":
+		// the server's registration wrapper is a POOL of keys (the documented way to
+		// accept more than one registration key); the node sealed with a member that
+		// is not the pool's current encryptor
+		older, current := vkit.NewAead("registration-2023"), vkit.NewAead("registration-2024")
+		pool, perr := multi.NewPooledWrapper(w.Ctx, current)
+		if perr != nil {
+			return fail("setup-failed", "pooled wrapper: %v", perr)
+		}
+		if _, perr = pool.AddWrapper(w.Ctx, older); perr != nil {
+			return fail("setup-failed", "pooled wrapper: %v", perr)
+		}
+		a = vkit.NewActorOn(nodeStore, "subject", nodeOpts...)
+		req = a.Request(nodeenrollment.WithRegistrationWrapper(older), nodeenrollment.WithWrappingRegistrationFlowApplicationSpecificParams(params))
+		serverOpts = w.O(nodeenrollment.WithRegistrationWrapper(pool), nodeenrollment.WithState(state))
 	case "wrapper":
 		rw := vkit.NewAead("registration")
 		wrapRW = rw
@@ -208,7 +224,7 @@ func enroll(t vkit.TB, c config, state, params *structpb.Struct, subst string) b
 	if !(state == nil && ni.State == nil) && !proto.Equal(ni.State, state) {
 		return fail("record-state", "stored record does not carry the application state")
 	}
-	if c.Flow == "wrapper" || strings.HasPrefix(c.Flow, "re-wrapped") {
+	if strings.HasPrefix(c.Flow, "wrapper") || strings.HasPrefix(c.Flow, "re-wrapped") {
 		got := ni.WrappingRegistrationFlowInfo.GetApplicationSpecificParams()
 		if !(params == nil && got == nil) && !proto.Equal(got, params) {
 			return fail("record-params", "stored record does not carry the application-specific params")
@@ -383,7 +399,7 @@ func contains(l []string, s string) bool {
 // wrapper the server does not have and re-sealed it to the server; the server itself is
 // configured without a registration wrapper, with one of its own (another one), or with
 // the node's.
-var flowNames = []string{"operator-authorized", "activation-token", "wrapper", "re-wrapped", "re-wrapped/server-has-own-registration-wrapper", "re-wrapped/server-has-the-nodes-registration-wrapper"}
+var flowNames = []string{"operator-authorized", "activation-token", "wrapper", "re-wrapped", "re-wrapped/server-has-own-registration-wrapper", "re-wrapped/server-has-the-nodes-registration-wrapper", "wrapper/server-pool-node-uses-older-key"}
 var substs = []string{"opened-by-other-node", "server-key-replaced", "nonce-empty", "nonce-truncated", "nonce-tail", "nonce-extended", "nonce-bitflip", "nonce-of-other-node", "fields-from-other-response"}
 
 func TestEnum_Product(t *testing.T) {
@@ -409,7 +425,7 @@ func TestEnum_Product(t *testing.T) {
 			}
 		}
 	}
-	vkit.Rec(prop).Exhaustive("flow x back end x server storage wrapper x node storage wrapper x root configuration x node storage back end (288 tuples)", true)
+	vkit.Rec(prop).Exhaustive("flow x back end x server storage wrapper x node storage wrapper x root configuration x node storage back end (336 tuples)", true)
 }
 
 func TestProp_Random(t *testing.T) {
